@@ -1,3 +1,274 @@
-use crate::run::{Args, Out};
-use serde_json::{Map, Value};
-pub fn run(_id: &str, _args: &Args, _out: &mut Out, _extra: &mut Map<String, Value>) {}
+//! Miri / ThreadSanitizer / AddressSanitizer layers (DESIGN.md section 4).
+//!
+//! The racing / unsafe-reaching child kinds of the check binaries themselves are rebuilt
+//! under the tool and re-run with small workloads; the same oracles run inside, so every Miri
+//! seed / sanitizer run is one more judged execution.  A tool report in code reached by the
+//! workload is a violation; failing to build or run the layer is inconclusive, never a violation.
+use crate::run::{self, Args, ChildEnd, ChildSpec, Out, Tier};
+use serde_json::{json, Map, Value};
+use std::path::PathBuf;
+use std::process::Command;
+
+#[derive(Clone, Copy, PartialEq, Debug)]
+enum Tool {
+    Miri,
+    Tsan,
+    Asan,
+}
+
+struct Layer {
+    tool: Tool,
+    kind: &'static str,
+    extra: &'static [(&'static str, &'static str)],
+    quick: u64,
+    thorough: u64,
+}
+
+fn layers(id: &str) -> (&'static str, Vec<Layer>) {
+    use Tool::*;
+    match id {
+        "C02" => ("c02", vec![
+            Layer { tool: Miri, kind: "conc", extra: &[], quick: 6, thorough: 96 },
+            Layer { tool: Tsan, kind: "conc", extra: &[], quick: 0, thorough: 1500 },
+        ]),
+        "C03" => ("c03", vec![
+            Layer { tool: Miri, kind: "prog", extra: &[("progs", "2")], quick: 6, thorough: 96 },
+            Layer { tool: Asan, kind: "prog", extra: &[("progs", "100")], quick: 0, thorough: 48 },
+        ]),
+        "C04" => ("c04", vec![
+            Layer { tool: Miri, kind: "race", extra: &[("scen", "2")], quick: 8, thorough: 128 },
+            Layer { tool: Tsan, kind: "race", extra: &[("scen", "100")], quick: 0, thorough: 200 },
+        ]),
+        "C05" => ("c05", vec![
+            Layer { tool: Miri, kind: "race", extra: &[("scen", "2")], quick: 6, thorough: 96 },
+            Layer { tool: Miri, kind: "hist", extra: &[("hist", "2")], quick: 0, thorough: 32 },
+            Layer { tool: Tsan, kind: "race", extra: &[("scen", "100")], quick: 0, thorough: 200 },
+            Layer { tool: Asan, kind: "hist", extra: &[("hist", "60")], quick: 0, thorough: 32 },
+            Layer { tool: Asan, kind: "race", extra: &[("scen", "60")], quick: 0, thorough: 32 },
+        ]),
+        "C12" => ("c12", vec![
+            Layer { tool: Tsan, kind: "conc", extra: &[("runs", "3")], quick: 0, thorough: 100 },
+        ]),
+        "C15" => ("c15", vec![
+            Layer { tool: Tsan, kind: "rand", extra: &[("runs", "6")], quick: 0, thorough: 64 },
+        ]),
+        _ => ("", vec![]),
+    }
+}
+
+fn harness_dir() -> PathBuf {
+    run::verif_root().join("harness")
+}
+
+const TRIPLE: &str = "x86_64-unknown-linux-gnu";
+
+/// Build the sanitizer variant of `bin`; returns the executable path or the error text.
+fn build_san(tool: Tool, bin: &str) -> Result<PathBuf, String> {
+    let (dir, flags, buildstd) = match tool {
+        Tool::Tsan => ("tsan", "-Zsanitizer=thread", true),
+        Tool::Asan => ("asan", "-Zsanitizer=address -Cforce-frame-pointers=yes", false),
+        Tool::Miri => unreachable!(),
+    };
+    let target_dir = harness_dir().join("target").join(dir);
+    let mut cmd = Command::new("cargo");
+    cmd.current_dir(harness_dir())
+        .arg("+nightly")
+        .arg("build")
+        .arg("--offline")
+        .arg("--release")
+        .args(["--target", TRIPLE, "-p", "checks", "--bin", bin])
+        .env("RUSTFLAGS", flags)
+        .env("CARGO_TARGET_DIR", &target_dir)
+        .env("CARGO_NET_OFFLINE", "true");
+    if buildstd {
+        cmd.arg("-Zbuild-std");
+    }
+    let o = cmd.output().map_err(|e| format!("cannot run cargo: {e}"))?;
+    if !o.status.success() {
+        let e = String::from_utf8_lossy(&o.stderr);
+        let t: String = e.lines().filter(|l| l.starts_with("error")).take(5).collect::<Vec<_>>().join(" | ");
+        return Err(format!("build of {bin} under {dir} failed: {t}"));
+    }
+    Ok(target_dir.join(TRIPLE).join("release").join(bin))
+}
+
+/// first frame of a report that lies in the repository under test
+fn first_repo_frame(block: &str) -> String {
+    for l in block.lines() {
+        if let Some(p) = l.find("/repo/") {
+            let s = &l[p..];
+            let end = s.find(|c: char| c.is_whitespace() || c == ')').unwrap_or(s.len());
+            // strip the column, keep file:line
+            let f = &s[..end];
+            let mut parts = f.split(':');
+            let file = parts.next().unwrap_or("");
+            let line = parts.next().unwrap_or("");
+            return format!("{file}:{line}");
+        }
+    }
+    String::new()
+}
+
+fn classify(tool: Tool, id: &str, layer: &Layer, ends: &[ChildEnd], out: &mut Out, stats: &mut Map<String, Value>) {
+    let name = format!("{:?}", tool).to_lowercase();
+    let mut ok = 0u64;
+    let mut reports: std::collections::BTreeMap<String, (u64, String)> = Default::default();
+    let mut foreign = 0u64;
+    for e in ends {
+        let err = &e.stderr_tail;
+        if e.timed_out {
+            out.inconclusive(format!("{name} run of {id} kind {} shard {} hit the watchdog", layer.kind, e.shard));
+            continue;
+        }
+        let mut reported = false;
+        match tool {
+            Tool::Miri => {
+                if err.contains("Undefined Behavior") || err.contains("Data race detected") || err.contains("error: memory leaked") && false {
+                    let pos = err.find("error: Undefined Behavior").or_else(|| err.find("Data race detected")).unwrap_or(0);
+                    let block = &err[pos..];
+                    let key = first_repo_frame(block);
+                    let head: String = block.lines().take(1).collect();
+                    reports.entry(format!("{head} @ {key}")).or_insert((0, block.chars().take(3000).collect())).0 += 1;
+                    reported = true;
+                } else if err.contains("error: unsupported operation") || err.contains("error: abnormal termination") || err.contains("the evaluated program deadlocked") {
+                    if err.contains("the evaluated program deadlocked") {
+                        reports.entry("Miri: the evaluated program deadlocked".into()).or_insert((0, err.chars().rev().take(2500).collect::<String>().chars().rev().collect())).0 += 1;
+                        reported = true;
+                    } else {
+                        out.inconclusive(format!("miri run of {id} kind {} shard {}: {}", layer.kind, e.shard, err.lines().find(|l| l.starts_with("error")).unwrap_or("unsupported operation")));
+                        continue;
+                    }
+                }
+            }
+            Tool::Tsan | Tool::Asan => {
+                let marker = if tool == Tool::Tsan { "WARNING: ThreadSanitizer" } else { "ERROR: AddressSanitizer" };
+                let mut rest = err.as_str();
+                while let Some(p) = rest.find(marker) {
+                    let after = &rest[p..];
+                    let end = after[marker.len()..].find(marker).map(|x| x + marker.len()).unwrap_or(after.len());
+                    let block = &after[..end];
+                    let key = first_repo_frame(block);
+                    if key.is_empty() && !block.contains("checks/src") {
+                        foreign += 1;
+                    } else {
+                        let head: String = block.lines().next().unwrap_or("").to_string();
+                        reports.entry(format!("{head} @ {key}")).or_insert((0, block.chars().take(3500).collect())).0 += 1;
+                    }
+                    reported = true;
+                    rest = &after[end..];
+                }
+                if tool == Tool::Asan && err.contains("LeakSanitizer") {
+                    // leaks are not part of these properties (set_global_default leaks by design)
+                }
+            }
+        }
+        if !reported {
+            if e.status == Some(0) && e.got_result {
+                ok += 1;
+            } else if err.contains("HARNESS:") || !e.got_result {
+                out.inconclusive(format!(
+                    "{name} run of {id} kind {} shard {} ended without a result (status {:?}, signal {:?}): {}",
+                    layer.kind,
+                    e.shard,
+                    e.status,
+                    e.signal,
+                    err.lines().rev().find(|l| !l.trim().is_empty()).unwrap_or("")
+                ));
+            } else {
+                ok += 1;
+            }
+        }
+    }
+    for (k, (n, block)) in &reports {
+        out.violation(
+            format!("{name} report in code reached by the {id} workload ({} kind): {k} [{n} runs]", layer.kind),
+            json!({"tool": name, "kind": layer.kind, "report": block, "runs_with_this_report": n}),
+        );
+    }
+    let key = format!("{name}_{}", layer.kind);
+    stats.insert(format!("{key}_runs_without_report"), json!(ok));
+    stats.insert(format!("{key}_distinct_reports"), json!(reports.len()));
+    if foreign > 0 {
+        stats.insert(format!("{key}_reports_entirely_in_third_party_code_not_judged"), json!(foreign));
+    }
+    out.count(&format!("{key}_runs_without_report"), ok);
+}
+
+pub fn run(id: &str, args: &Args, out: &mut Out, extra: &mut Map<String, Value>) {
+    let (bin, ls) = layers(id);
+    if ls.is_empty() {
+        return;
+    }
+    let skip_miri = std::env::var("VERIF_SKIP_MIRI").is_ok();
+    let skip_san = std::env::var("VERIF_SKIP_SAN").is_ok();
+    let mut stats = Map::new();
+    for layer in &ls {
+        let n = match args.tier {
+            Tier::Quick => layer.quick,
+            Tier::Thorough => layer.thorough,
+        };
+        let n = args.get_u64(&format!("{:?}_{}", layer.tool, layer.kind).to_lowercase(), n);
+        if n == 0 {
+            continue;
+        }
+        if (layer.tool == Tool::Miri && skip_miri) || (layer.tool != Tool::Miri && skip_san) {
+            stats.insert(format!("{:?}_{}_skipped_by_env", layer.tool, layer.kind).to_lowercase(), json!(true));
+            continue;
+        }
+        let mut spec = ChildSpec::new(layer.kind, n).timeout(900);
+        for (k, v) in layer.extra {
+            spec = spec.arg(k, v);
+        }
+        spec.stderr_keep = 30000;
+        spec.env.push(("VERIF_SLOW".into(), "30".into()));
+        match layer.tool {
+            Tool::Miri => {
+                spec.exe = Some(PathBuf::from("cargo"));
+                spec.cwd = Some(harness_dir());
+                spec.pre_args = ["+nightly", "miri", "run", "--offline", "-q", "-p", "checks", "--bin", bin, "--"].iter().map(|s| s.to_string()).collect();
+                spec.env.push(("CARGO_TARGET_DIR".into(), harness_dir().join("target").join("miri").to_string_lossy().into_owned()));
+                spec.env.push(("CARGO_NET_OFFLINE".into(), "true".into()));
+                spec.env.push(("MIRIFLAGS".into(), "-Zmiri-disable-isolation -Zmiri-seed={shard} -Zmiri-preemption-rate=0.03".into()));
+                // warm the build with one run before fanning out
+                let mut warm = ChildSpec::new(layer.kind, 1).timeout(1800);
+                warm.exe = spec.exe.clone();
+                warm.cwd = spec.cwd.clone();
+                warm.pre_args = spec.pre_args.clone();
+                warm.env = spec.env.clone();
+                warm.extra = spec.extra.clone();
+                warm.extra.push("warmup=1".into());
+                let mut sink = Out::new();
+                let w = run::run_children(args, &warm, &mut sink);
+                if w.iter().any(|e| e.stderr_tail.contains("error: could not compile") || e.stderr_tail.contains("error[E")) {
+                    out.inconclusive(format!("miri layer of {id}: the interpreter build failed: {}", w[0].stderr_tail.lines().find(|l| l.starts_with("error")).unwrap_or("")));
+                    continue;
+                }
+            }
+            Tool::Tsan | Tool::Asan => match build_san(layer.tool, bin) {
+                Ok(p) => {
+                    spec.exe = Some(p);
+                    if layer.tool == Tool::Tsan {
+                        spec.env.push(("TSAN_OPTIONS".into(), "halt_on_error=0 exitcode=66 report_signal_unsafe=0".into()));
+                    } else {
+                        spec.env.push(("ASAN_OPTIONS".into(), "detect_leaks=0 halt_on_error=1 abort_on_error=0 exitcode=67".into()));
+                    }
+                }
+                Err(e) => {
+                    out.inconclusive(format!("{:?} layer of {id}: {e}", layer.tool));
+                    continue;
+                }
+            },
+        }
+        let mut sub = Out::new();
+        let ends = run::run_children(args, &spec, &mut sub);
+        // fold what the in-program oracles found
+        let sj = sub.to_json();
+        out.merge_json(&json!({"viols": sj["viols"], "known": sj["known"], "inconclusive": sj["inconclusive"], "distinct": sj["distinct"]}));
+        let key = format!("{:?}_{}", layer.tool, layer.kind).to_lowercase();
+        stats.insert(format!("{key}_runs"), json!(n));
+        stats.insert(format!("{key}_evaluations_inside"), json!(sub.evals));
+        out.count(&format!("{key}_evaluations_inside"), sub.evals);
+        classify(layer.tool, id, layer, &ends, out, &mut stats);
+    }
+    extra.insert("sanitizer_and_interpreter_layers".into(), Value::Object(stats));
+}
